@@ -918,6 +918,12 @@ func (em *emitter) emitUnaryOp(expr *ast.UnaryOperator, reg int8, regType reflec
 	// *operand
 	case ast.OperatorPointer:
 		exprReg := em.emitExpr(operand, operandType)
+		if exprReg < 0 {
+			// The pointer is in an indirect variable.
+			tmp := em.fb.newRegister(reflect.Pointer)
+			em.changeRegister(false, exprReg, tmp, operandType, operandType)
+			exprReg = tmp
+		}
 		// The instruction that loads the pointed value panics if the pointer
 		// is nil.
 		em.fb.addPosAndPath(expr.Pos())
